@@ -8,9 +8,33 @@
 package media
 
 import (
+	"sort"
 	"sync/atomic"
 	"time"
 )
+
+// Range 仅在 verif 构建下生效：遮蔽内嵌 sync.Map 的 Range，按消费者 ID 的顺序遍历。
+// sync.Map 的遍历顺序取决于每个实例的随机哈希种子；仿真要在遍历回调中设置调度点，
+// 需要遍历顺序可重现。与 sync.Map.Range 一样，遍历开始后被删除的项可能不再被访问。
+func (m *consumptions) Range(f func(key, value interface{}) bool) {
+	type kv struct {
+		k CID
+		v interface{}
+	}
+	var all []kv
+	m.Map.Range(func(key, value interface{}) bool {
+		all = append(all, kv{key.(CID), value})
+		return true
+	})
+	sort.Slice(all, func(i, j int) bool { return all[i].k < all[j].k })
+	for _, e := range all {
+		if v, ok := m.Map.Load(e.k); ok {
+			if !f(e.k, v) {
+				return
+			}
+		}
+	}
+}
 
 // VerifQueueLen 仅供仿真使用：返回指定消费者的积压队列长度；不存在返回 -1。
 func (s *Stream) VerifQueueLen(cid CID) int {
